@@ -1,6 +1,6 @@
 (* Properties_C10.v — obligations of property C10 (the AF list is exactly the set of valid FM
    codes received in 0A). *)
-Require Import ObsRun Lemmas_AfHist.
+Require Import ObsRun Lemmas_AfHist Lemmas_CbAf.
 Local Open Scope Z_scope.
 
 (* For EVERY history, after every call, the 26-byte bitmap the AF getter returns is
@@ -26,8 +26,23 @@ Theorem C10_bitmap_layout : forall a p v, AfInv a p -> 0 <= v < 256 ->
 Proof. intros a p v I Hv. split; [apply af_get_spec; assumption|apply af_set_spec; assumption]. Qed.
 Print Assumptions C10_bitmap_layout.
 
-(* PARTIAL: "every addition triggers the AF callback exactly once with that frequency in kHz" is
-   part of obs_C10 / obs_C04 (af_events_ok), evaluated on model and library, not proved. *)
+(* every addition triggers the AF callback exactly once with that frequency in kHz *)
+Theorem C10_af_callbacks : forall conv lut h g s, reach conv lut h s -> wf_group g ->
+  let evs := filter (isf FAF) (snd (process conv lut g s)) in
+  let a0 := d_af (used s) in
+  let a2 := d_af (used (fst (process conv lut g s))) in
+  let v1 := w_hi (gc g) in let v2 := w_lo (gc g) in
+  if (b_group (gb g) =? 0) && (b_ver (gb g) =? 0) && (eb g =? 0) && (ec g =? 0) && negb (v1 =? 250) then
+    exists a1,
+      evs = (if newly a0 a1 v1 && negb (cb s FAF =? 0) then [af_event s v1 a1] else [])
+            ++ (if newly a1 a2 v2 && negb (cb s FAF =? 0) then [af_event s v2 a2] else [])
+      /\ (forall w, 0 <= w < 256 -> w <> v1 -> af_get a1 w = af_get a0 w)
+      /\ (forall w, 0 <= w < 256 -> w <> v2 -> af_get a2 w = af_get a1 w)
+      /\ (af_get a0 v1 = true -> af_get a1 v1 = true) /\ (af_get a1 v2 = true -> af_get a2 v2 = true)
+  else evs = [] /\ a2 = a0.
+Proof. exact af_callbacks. Qed.
+Print Assumptions C10_af_callbacks.
+
 Example C10_scenario : check_run_u (observer_u 10) scenario = true.
 Proof. vm_compute. reflexivity. Qed.
 Example C10_marker_and_range :
